@@ -274,6 +274,12 @@ def scenarios(tier):
                 tcycles=0, arms=0, max_depth=60, max_states=600000))
     S.append(mk("inbound-pause-reconnect", thr([opens[:2], [("pause", 0), ("resume", 0)], [("pause", 1)]]),
                 tcycles=0, arms=0, lose=1, max_depth=80, max_states=600000))
+    # the same with an observable outage: the replacement connection is established only when the explorer says so, so the
+    # application can pause / resume / stop (and register producers) while there is no connection at all
+    S.append(mk("inbound-ops-during-outage", thr([opens[:2], [("pause", 0), ("resume", 0)], [("pause", 1), ("stop", 1)]]),
+                tcycles=0, arms=0, lose=1, explored=("app", "tpause", "tresume", "arm", "lose", "conn_ok"), max_depth=80, max_states=600000))
+    S.append(mk("producers-during-outage", thr([opens[:2], [("reg_push", 0, True)], [("reg_pull", 1, 2)]]),
+                tcycles=1, arms=1, lose=1, explored=("app", "tpause", "tresume", "arm", "lose", "conn_ok"), dev_bound=3 if q else 4, max_depth=100))
     if not q:
         S.append(mk("push-three-fairness-bfs", thr([opens, [("reg_push", 0, True)], [("reg_push", 1, True)], [("reg_push", 2, True)]]),
                     tcycles=1, arms=2, fairness=True, max_depth=80, max_states=3000000))
